@@ -46,7 +46,10 @@ func Tier() string {
 	return "quick"
 }
 
-func Thorough() bool { return Tier() == "thorough" }
+// Thorough tells the generators to use the larger sizes of the thorough tier. Under the native fuzzer (VERIF_FUZZ,
+// set by vcheck) the quick sizes are used: the fuzz worker gives one input about ten seconds, and an instrumented
+// binary with sixteen workers on a loaded machine does not get through a 64 KiB message with 65535 records in that.
+func Thorough() bool { return Tier() == "thorough" && os.Getenv("VERIF_FUZZ") == "" }
 
 func outDir() string {
 	if s := os.Getenv("VERIF_OUT"); s != "" {
